@@ -1,4 +1,6 @@
 import CallbagModel.Inv.Pipeline
+import CallbagModel.Closed.RelayPipe
+import CallbagModel.Closed.TakePipe
 /-!
 # C06 — iterable programming: pull pipelines compute the corresponding list function
 
@@ -9,8 +11,11 @@ protocol: the items a consumer receives and the number of `Iterator::next` calls
 times (`some d`).  The theorems hold for EVERY pipeline (any nesting depth), all closures, all parameters, all finite inputs.
 `sem` is tied to the crate by `./check C06` (random programs run on the real operators with counting iterators: the arguments of
 `for_each`'s closure, completion, and the number of iterator advances must equal `listSem` / `sem`).
-NOT proved here (stated so it is not mistaken for more): that the NETWORK of the operator machines of `Ops/*.lean`, closed by
-`from_iter` and `for_each`, refines `sem` (layer L2) — the tie between `sem` and the operators is the differential check only.
+Layer L2 (the NETWORK of the operator machines of `Ops/*.lean`, closed by `from_iter` and `for_each`, built with `compose`) is proved
+for the one-stage closed pipelines `pipe!(from_iter(it), op, for_each(f))`, `op` any relay (map / filter / scan / skip) or `take(n)`:
+section "the network of operator machines" below.  For longer and nested programs the tie between `sem` and the operator machines is
+the differential check only (`./check C06` also runs every LINEAR program of its random stream on the composed machines,
+`Closed/Exec.lean`, and compares with `sem` and with the crate).
 -/
 namespace Cb.Thm
 
@@ -37,5 +42,58 @@ theorem C06_take_stops (n : Nat) (xs ys : List Int) (h : n ≤ xs.length) :
 /-- non-vacuity: a nested program with every kind of stage -/
 example : (sem (.take 4 (.flatMap (fun a => .skip 1 (.src [a, a + 1, a + 2])) (.filter (· % 2 == 1) (.concat (.src [1, 2]) (.map (· * 3) (.src [1, 4])))))) none)
     = ([2, 3, 4, 5], 11) := by decide
+
+/-! ## the network of operator machines (layer L2, one-stage closed pipelines)
+
+`Closed.relayPipe next it0 k` = `compose (compose (FromIter.machine …) (Relay.machine k)) (ForEach.machine …)`: the three operator
+machines wired by `compose` (internal synchronous calls), closed: the only environment moves are the application
+`for_each(f)(source)` and the returns of the closure calls (`Closed.env_moves`).  `Closed.apps tr` are the arguments of the closure
+calls in order; `nexts` is from_iter's ghost counter of `Iterator::next` calls.  The iterator is an arbitrary state machine. -/
+
+/-- `f` is only ever applied to a prefix of the list function, in order; no `expect`/`unwrap` fires -/
+theorem C06_machines_relay_prefix {ι σ α β : Type} (next : ι → Option (α × ι)) (it0 : ι) (k : Relay.Kind σ α β) (xs : List α)
+    (hk : k.slotted = false → ∀ s a, (k.xfer s a).2 ≠ none) (hx : Closed.Unfolds next it0 xs) :
+    ∀ s, SReach (Closed.relayPipe next it0 k) s →
+      s.panicked = none ∧ ∃ m, Closed.apps s.tr = (xferOut k.xfer k.seed xs).take m :=
+  Closed.relayPipe_prefix next it0 k xs hk hx
+
+/-- when the application has returned, `f` has been applied to exactly the list function and the iterator was advanced once per
+element plus once to discover exhaustion -/
+theorem C06_machines_relay_complete {ι σ α β : Type} (next : ι → Option (α × ι)) (it0 : ι) (k : Relay.Kind σ α β) (xs : List α)
+    (hk : k.slotted = false → ∀ s a, (k.xfer s a).2 ≠ none) (hx : Closed.Unfolds next it0 xs) :
+    ∀ s, SReach (Closed.relayPipe next it0 k) s → s.stack = [] → s.tr ≠ [] →
+      Closed.apps s.tr = xferOut k.xfer k.seed xs ∧ s.st.1.1.nexts = xs.length + 1 :=
+  Closed.relayPipe_complete next it0 k xs hk hx
+
+/-- the pipeline never diverges between two closure calls (a filter may drop arbitrarily many items in a row) -/
+theorem C06_machines_relay_progress {ι σ α β : Type} (next : ι → Option (α × ι)) (it0 : ι) (k : Relay.Kind σ α β) (xs : List α)
+    (hk : k.slotted = false → ∀ s a, (k.xfer s a).2 ≠ none) (hx : Closed.Unfolds next it0 xs) :
+    ∀ s, SReach (Closed.relayPipe next it0 k) s → ∃ n, EnvTurn (advance (Closed.relayPipe next it0 k) n s) :=
+  Closed.relayPipe_progress next it0 k xs hk hx
+
+/-- laziness, on the machines: `pipe!(from_iter(it), take(max), for_each(f))` with an iterator that yields at least `max` items —
+possibly infinitely many — applies `f` to the first `max` and advances the iterator exactly `max` times (no read-ahead) -/
+theorem C06_machines_take_lazy {ι α : Type} (next : ι → Option (α × ι)) (it0 : ι) (max : Nat) (xs : List α)
+    (hy : Closed.TakeP.Yields next it0 xs) (hl : xs.length = max) :
+    (∀ s, SReach (Closed.TakeP.takePipe next it0 max) s →
+      s.panicked = none ∧ (∃ m, Closed.TakeP.apps s.tr = xs.take m) ∧ s.st.1.1.nexts ≤ max) ∧
+    (∀ s, SReach (Closed.TakeP.takePipe next it0 max) s → s.stack = [] → s.tr ≠ [] →
+      Closed.TakeP.apps s.tr = xs ∧ s.st.1.1.nexts = max) :=
+  Closed.TakeP.takePipe_lazy next it0 max xs hy hl
+
+/-- … and with a shorter iterator: all of it, `length + 1` advances -/
+theorem C06_machines_take_short {ι α : Type} (next : ι → Option (α × ι)) (it0 : ι) (max : Nat) (xs : List α)
+    (hx : Closed.TakeP.Unfolds next it0 xs) (hl : xs.length < max) :
+    (∀ s, SReach (Closed.TakeP.takePipe next it0 max) s →
+      s.panicked = none ∧ (∃ m, Closed.TakeP.apps s.tr = xs.take m) ∧ s.st.1.1.nexts ≤ xs.length + 1) ∧
+    (∀ s, SReach (Closed.TakeP.takePipe next it0 max) s → s.stack = [] → s.tr ≠ [] →
+      Closed.TakeP.apps s.tr = xs ∧ s.st.1.1.nexts = xs.length + 1) :=
+  Closed.TakeP.takePipe_short next it0 max xs hx hl
+
+/-- it terminates whatever the iterator (even infinite), never panics, and applies `f` at most `max` times -/
+theorem C06_machines_take_progress {ι α : Type} (next : ι → Option (α × ι)) (it0 : ι) (max : Nat) :
+    ∀ s, SReach (Closed.TakeP.takePipe next it0 max) s →
+      s.panicked = none ∧ (Closed.TakeP.apps s.tr).length ≤ max ∧ ∃ n, EnvTurn (advance (Closed.TakeP.takePipe next it0 max) n s) :=
+  Closed.TakeP.takePipe_progress next it0 max
 
 end Cb.Thm
